@@ -19,6 +19,8 @@ assert all(ir.name_ok(n) for n in LABEL_NAMES + CONST_NAMES)
 # assembler consults constants and labels, not registers - and accepted by the assembler; kept out of name_ok() because such
 # a name must never be used for a CONSTANT (that is refused) or rendered where a register is expected
 LABEL_NAMES += ['s1', 'ra', 'x5', 'a0', 'fp']
+# identifiers need not be ASCII (both names are stable under the NFKC normalisation Python applies to identifiers)
+LABEL_NAMES += ['größe', 'λ']
 # register names are lower case only (`addi A0, x0, 1` is refused: "A0" is no register), so an UPPER-case register spelling is
 # an ordinary identifier and a legal constant name
 CONST_NAMES += ['A0', 'SP', 'X5', 'ZERO', 'T1', 'S1']
